@@ -4,10 +4,22 @@
 (* misc_test.go, conc_test.go): after every call of the real code the      *)
 (* driver probed every lock it knows of (TryLock/Unlock hooks) and logged  *)
 (* locks_free.  C14_Balance must hold at every such call boundary.  A call *)
-(* that never returned because it waits for a mutex ("hang") and a set of  *)
-(* concurrent calls that all wait for mutexes ("deadlock") are failures of *)
-(* the same property.  The outcome classes reached are collected and       *)
-(* written to exercised.json.                                              *)
+(* that can never return because it waits for a mutex ("hang") and a set   *)
+(* of concurrent calls that all wait for mutexes ("deadlock") are failures *)
+(* of the same property.  The drivers log these two events only from one   *)
+(* consistent snapshot of all goroutines in which every goroutine that     *)
+(* executes code of the real packages waits (for a mutex, or for a channel *)
+(* that only such a goroutine would signal): nobody is left to unlock.     *)
+(* How long anything took plays no role; a run that is neither finished    *)
+(* nor blocked ends as an infrastructure failure.  A call that waits by design for another call is     *)
+(* logged as "park" when it is observed waiting in a channel operation;    *)
+(* the calls that wake it are made while it is in flight, and it is logged *)
+(* as "resumed" when it returned.  While calls are in flight the locks     *)
+(* cannot be probed (such a call may hold them legitimately for a moment), *)
+(* so the driver probes after the last of them returned and logs the calls *)
+(* of the episode then; a call of the episode that cannot return because   *)
+(* it waits for a mutex is a "hang".  The outcome classes reached are      *)
+(* collected and written to exercised.json.                                *)
 (***************************************************************************)
 EXTENDS LockBalance, Json, TLC, TLCExt, Integers
 
@@ -18,7 +30,7 @@ VARIABLES l,         \* next line of TraceLog
           seen,      \* outcome classes reached so far
           ncalls     \* number of call returns judged
 
-tvars == <<phase, held, l, verdict, seen, ncalls>>
+tvars == <<phase, held, parked, l, verdict, seen, ncalls>>
 
 Line == TraceLog[l]
 IsEvent(e) == l <= Len(TraceLog) /\ Line.ev = e /\ l' = l + 1
@@ -31,7 +43,7 @@ TInit == BInit /\ l = 1 /\ verdict = "ok" /\ seen = {} /\ ncalls = 0
 \* A new file system instance: nothing is held.
 TReset ==
   /\ IsEvent("reset")
-  /\ phase' = "idle" /\ held' = {}
+  /\ phase' = "idle" /\ held' = {} /\ parked' = 0
   /\ verdict' = "ok" /\ UNCHANGED <<seen, ncalls>>
 
 \* A call returned and the locks were probed: the call boundary.
@@ -42,12 +54,40 @@ TCall ==
   /\ verdict' = BalanceVerdict(Line.call, Line.outcome, Line.locks_free /\ BusySet(Line) = {})
   /\ seen' = seen \cup {Key(Line)}
   /\ ncalls' = ncalls + 1
+  /\ UNCHANGED parked
+
+\* A call was observed waiting, by design, for another call.
+TPark ==
+  /\ IsEvent("park")
+  /\ phase' = "idle" /\ parked' = parked + 1 /\ UNCHANGED held
+  /\ verdict' = "ok"
+  /\ UNCHANGED <<seen, ncalls>>
+
+\* The parked call returned (after the calls that woke it); the locks were
+\* probed when nothing was in flight any more.
+TResumed ==
+  /\ IsEvent("resumed")
+  /\ phase' = "idle" /\ parked' = IF parked > 0 THEN parked - 1 ELSE 0
+  /\ held' = BusySet(Line)
+  /\ verdict' = IF parked = 0 THEN "NC:driver-resumed-without-park"
+                ELSE BalanceVerdict(Line.call, Line.outcome, Line.locks_free /\ BusySet(Line) = {})
+  /\ seen' = seen \cup {Key(Line)}
+  /\ ncalls' = ncalls + 1
+
+\* The calls that should wake the parked call returned, yet it still waits
+\* in its channel operation: a lost wake-up.  Not a lock that was left
+\* behind (property C16 speaks about wake-ups): non-conformance.
+TStuck ==
+  /\ IsEvent("stuck")
+  /\ phase' = "idle" /\ parked' = 0 /\ UNCHANGED held
+  /\ verdict' = "NC:parked-call-not-woken:" \o Line.call
+  /\ UNCHANGED <<seen, ncalls>>
 
 \* A call did not return and its goroutine is parked waiting for a mutex:
 \* some earlier call left that mutex locked.
 THang ==
   /\ IsEvent("hang")
-  /\ phase' = "running" /\ UNCHANGED held
+  /\ phase' = "running" /\ UNCHANGED <<held, parked>>
   /\ verdict' = "C14:hang:" \o Line.call
   /\ UNCHANGED <<seen, ncalls>>
 
@@ -56,7 +96,7 @@ THang ==
 \* non-conformance), unless it left a lock behind.
 TPanic ==
   /\ IsEvent("panic")
-  /\ phase' = "idle" /\ held' = BusySet(Line)
+  /\ phase' = "idle" /\ held' = BusySet(Line) /\ parked' = 0
   /\ verdict' = IF Line.locks_free THEN "NC:panic:" \o Line.call
                 ELSE "C14:lock-leaked-after:" \o Line.call \o ":panic"
   /\ UNCHANGED <<seen, ncalls>>
@@ -65,11 +105,11 @@ TPanic ==
 \* and no call returned for a long time.
 TDeadlock ==
   /\ IsEvent("deadlock")
-  /\ phase' = "running" /\ UNCHANGED held
+  /\ phase' = "running" /\ UNCHANGED <<held, parked>>
   /\ verdict' = "C14:deadlock"
   /\ UNCHANGED <<seen, ncalls>>
 
-TNext == TReset \/ TCall \/ THang \/ TPanic \/ TDeadlock
+TNext == TReset \/ TCall \/ TPark \/ TResumed \/ TStuck \/ THang \/ TPanic \/ TDeadlock
 
 TraceSpec == TInit /\ [][TNext]_tvars
 
